@@ -77,17 +77,34 @@ theorem sign1_diff {f1 f2 : Rat} (h : f1 * f2 < 0) :
 /-- what the theorems need of the square root -/
 def SqOK (sq : Rat → Rat) : Prop := ∀ y : Rat, 0 < y → 0 < sq y ∧ y ≤ sq y * sq y
 
-def ridderT (sq : Rat → Rat) (f1 f2 f3 : Rat) : Rat :=
+/-- the unscaled factor `Sign(f1-f2)·f3/sqrt(f3²-f1·f2)` -/
+def ridderT0 (sq : Rat → Rat) (f1 f2 f3 : Rat) : Rat :=
   ((sign1 (f1 - f2) : Int) : Rat) * f3 / sq (f3 * f3 - f1 * f2)
+
+theorem pow2_pos (e : Int) : 0 < Lp.pow2 e := by
+  unfold Lp.pow2; exact zpow_pos (by norm_num) e
+
+theorem ridderScale_pos (f1 f2 f3 : Rat) : 0 < ridderScale f1 f2 f3 := by
+  unfold ridderScale; exact pow2_pos _
+
+/-- the factor as coded (commit e02ed3d): on the values scaled by `ridderScale`, `0` (= the midpoint) when the
+    square root of the scaled discriminant is not positive -/
+def ridderT (sq : Rat → Rat) (f1 f2 f3 : Rat) : Rat :=
+  let c := ridderScale f1 f2 f3
+  if sq ((f3 * c) * (f3 * c) - (f1 * c) * (f2 * c)) > 0 then ridderT0 sq (f1 * c) (f2 * c) (f3 * c) else 0
 
 theorem ridderX4_id (sq : Rat → Rat) (x1 f1 f2 x3 f3 : Rat) :
     ridderX4 sq id x1 f1 f2 x3 f3 = x3 + (x3 - x1) * ridderT sq f1 f2 f3 := by
-  unfold ridderX4 ridderT; simp only [id]; ring
+  unfold ridderX4 ridderT ridderT0
+  simp only [id]
+  split
+  · ring
+  · ring
 
 /-- `|t| < 1`, and `t` has the sign of `f1·f3` -/
-theorem ridderT_bounds (sq : Rat → Rat) (hsq : SqOK sq) (f1 f2 f3 : Rat) (h : f1 * f2 < 0) :
-    -1 < ridderT sq f1 f2 f3 ∧ ridderT sq f1 f2 f3 < 1 ∧
-    (f1 * f3 ≤ 0 → ridderT sq f1 f2 f3 ≤ 0) ∧ (0 ≤ f1 * f3 → 0 ≤ ridderT sq f1 f2 f3) := by
+theorem ridderT0_bounds (sq : Rat → Rat) (hsq : SqOK sq) (f1 f2 f3 : Rat) (h : f1 * f2 < 0) :
+    -1 < ridderT0 sq f1 f2 f3 ∧ ridderT0 sq f1 f2 f3 < 1 ∧
+    (f1 * f3 ≤ 0 → ridderT0 sq f1 f2 f3 ≤ 0) ∧ (0 ≤ f1 * f3 → 0 ≤ ridderT0 sq f1 f2 f3) := by
   have hD : 0 < f3 * f3 - f1 * f2 := by nlinarith [mul_self_nonneg f3]
   obtain ⟨hs, hss⟩ := hsq _ hD
   set s := sq (f3 * f3 - f1 * f2) with hsdef
@@ -100,7 +117,7 @@ theorem ridderT_bounds (sq : Rat → Rat) (hsq : SqOK sq) (f1 f2 f3 : Rat) (h : 
     · by_contra hn; push Not at hn
       have : s * s ≤ f3 * f3 := by nlinarith
       linarith
-  unfold ridderT
+  unfold ridderT0
   rw [← hsdef]
   rcases sign1_diff h with ⟨h1, _, hsg⟩ | ⟨h1, _, hsg⟩
   · rw [hsg]
@@ -121,6 +138,71 @@ theorem ridderT_bounds (sq : Rat → Rat) (hsq : SqOK sq) (f1 f2 f3 : Rat) (h : 
     · intro h13
       have : f3 ≤ 0 := by by_contra hn; push Not at hn; have := mul_neg_of_neg_of_pos h1 hn; linarith
       exact div_nonneg (by linarith) (le_of_lt hs)
+
+/-! ### the scaling of commit e02ed3d -/
+
+/-- the scaled discriminant is positive whenever `f1`, `f2` have strictly opposite signs (for any positive
+    scale factor, in particular the power of two `ridderScale`) -/
+theorem scaled_discriminant_pos (f1 f2 f3 c : Rat) (hc : 0 < c) (h : f1 * f2 < 0) :
+    0 < (f3 * c) * (f3 * c) - (f1 * c) * (f2 * c) := by
+  have e : (f3 * c) * (f3 * c) - (f1 * c) * (f2 * c) = (c * c) * (f3 * f3 - f1 * f2) := by ring
+  rw [e]
+  exact mul_pos (mul_pos hc hc) (by nlinarith [mul_self_nonneg f3])
+
+/-- **ridder_fallback_unreachable**: with a square root that is positive on positive arguments and a
+    bracket with a sign change, the `s > 0` test of the code succeeds: the midpoint fallback is dead
+    code in exact arithmetic (it only catches a discriminant that vanishes by rounding). -/
+theorem ridder_fallback_unreachable (sq : Rat → Rat) (hsq : SqOK sq) (f1 f2 f3 : Rat) (h : f1 * f2 < 0) :
+    sq ((f3 * ridderScale f1 f2 f3) * (f3 * ridderScale f1 f2 f3)
+        - (f1 * ridderScale f1 f2 f3) * (f2 * ridderScale f1 f2 f3)) > 0 :=
+  (hsq _ (scaled_discriminant_pos f1 f2 f3 _ (ridderScale_pos f1 f2 f3) h)).1
+
+theorem sign1_mul_pos (x c : Rat) (hc : 0 < c) : sign1 (x * c) = sign1 x := by
+  rcases lt_trichotomy x 0 with h | h | h
+  · rw [sign1_neg h, sign1_neg (mul_neg_of_neg_of_pos h hc)]
+  · subst h; simp
+  · rw [sign1_pos h, sign1_pos (mul_pos h hc)]
+
+/-- **ridder_scale_invariant**: Ridders' formula is homogeneous of degree zero in `(f1,f2,f3)`: with a
+    square root that commutes with the scale factor on the discriminant at hand
+    (`sq (c²·D) = c·sq D`, true of the real square root for every `c > 0`) and `sq D > 0`, the new
+    point computed on the scaled values is the one of the unscaled formula
+    `x3 + (x3 − x1)·Sign(f1 − f2)·f3 / sqrt(f3² − f1·f2)`. -/
+theorem ridder_scale_invariant (sq : Rat → Rat) (x1 f1 f2 x3 f3 : Rat)
+    (hpos : 0 < sq (f3 * f3 - f1 * f2))
+    (hhom : sq (ridderScale f1 f2 f3 * ridderScale f1 f2 f3 * (f3 * f3 - f1 * f2))
+              = ridderScale f1 f2 f3 * sq (f3 * f3 - f1 * f2)) :
+    ridderX4 sq id x1 f1 f2 x3 f3
+      = x3 + (x3 - x1) * ((sign1 (f1 - f2) : Int) : Rat) * f3 / sq (f3 * f3 - f1 * f2) := by
+  have hc := ridderScale_pos f1 f2 f3
+  unfold ridderX4
+  simp only [id]
+  set c := ridderScale f1 f2 f3
+  have e : (f3 * c) * (f3 * c) - (f1 * c) * (f2 * c) = c * c * (f3 * f3 - f1 * f2) := by ring
+  have e2 : f1 * c - f2 * c = (f1 - f2) * c := by ring
+  rw [e, hhom, e2, sign1_mul_pos _ _ hc, if_pos (mul_pos hc hpos)]
+  have hcne : c ≠ 0 := ne_of_gt hc
+  have hsne : sq (f3 * f3 - f1 * f2) ≠ 0 := ne_of_gt hpos
+  field_simp
+
+/-- `|t| < 1`, and `t` has the sign of `f1·f3` — for the factor as coded (scaled values, fallback) -/
+theorem ridderT_bounds (sq : Rat → Rat) (hsq : SqOK sq) (f1 f2 f3 : Rat) (h : f1 * f2 < 0) :
+    -1 < ridderT sq f1 f2 f3 ∧ ridderT sq f1 f2 f3 < 1 ∧
+    (f1 * f3 ≤ 0 → ridderT sq f1 f2 f3 ≤ 0) ∧ (0 ≤ f1 * f3 → 0 ≤ ridderT sq f1 f2 f3) := by
+  have hc := ridderScale_pos f1 f2 f3
+  have hfb := ridder_fallback_unreachable sq hsq f1 f2 f3 h
+  unfold ridderT
+  simp only []
+  rw [if_pos hfb]
+  set c := ridderScale f1 f2 f3
+  have hg : (f1 * c) * (f2 * c) < 0 := by
+    have : (f1 * c) * (f2 * c) = (c * c) * (f1 * f2) := by ring
+    rw [this]; exact mul_neg_of_pos_of_neg (mul_pos hc hc) h
+  obtain ⟨b1, b2, b3, b4⟩ := ridderT0_bounds sq hsq (f1 * c) (f2 * c) (f3 * c) hg
+  have e13 : (f1 * c) * (f3 * c) = (c * c) * (f1 * f3) := by ring
+  refine ⟨b1, b2, ?_, ?_⟩
+  · intro h13; apply b3; rw [e13]; exact mul_nonpos_of_nonneg_of_nonpos (le_of_lt (mul_pos hc hc)) h13
+  · intro h13; apply b4; rw [e13]; exact mul_nonneg (le_of_lt (mul_pos hc hc)) h13
 
 /-! ### where the new iterate lies -/
 
